@@ -30,7 +30,6 @@ package coreutil
 //@ props C04 C03 C05 C12
 //@ ensures imp(!ok, leftOf[w.sched] != 0)
 //@ ensures [finished-means-cancelled-or-exhausted] imp(ok, done(ctx) || leftOf[w.sched] == 0)
-//@ ensures [not-finished-means-not-cancelled-at-the-check] imp(!ok, doneAt(ctx) > old(now))
 //@ modifies leftOf[w.sched]
 
 //@ func NewWaiter
